@@ -40,7 +40,7 @@ import pulser
 from pulser import Register, Sequence
 
 PROP = "C08"
-TARGETS = ["PulserModel.Param", "Proofs.Param", "Properties.C08"]
+TARGETS = ["PulserModel.Param", "Proofs.Param", "Proofs.ParamStore", "Properties.C08"]
 COUNTS = {"quick": 600, "thorough": 12000}
 NBUILDS = 4
 TOL = 1e-9
@@ -65,9 +65,10 @@ UNCOVERED = [
     "enable_eom_mode/modify_eom_setpoint in the concrete prefix (stored with the chosen detuning_off) "
     "need closest_idempotent (C09 replay_log) — correspondence only",
     "declare_channel / config_detuning_map issued while parametrized (hoisted by build): correspondence only",
-    "store_no_spurious_reject: not proved (frame lemma relating the template's bookkeeping to the state "
-    "of the direct run); the counterexample `store_rejects_what_direct_accepts` shows the unrestricted "
-    "statement is false; store-time rejections of calls the direct construction accepts are counted",
+    "store_no_spurious_reject is proved for the stored-call language POp (no declare_channel / "
+    "config_detuning_map while parametrized) and needs distinct indices in array targets (counterexample "
+    "`store_rejects_what_direct_accepts`); store-time rejections of calls the direct construction accepts "
+    "(align with a DMM configured while parametrized, ...) are counted in the evidence",
     "float evaluation of expressions: tolerance 1e-9, ties between phases closer than 1e-9 are marked "
     "float_ambiguous and not compared",
 ]
